@@ -117,7 +117,7 @@ def sched_parts(pid: str, tier: str):
         mons = ("C06",)
         mk("whole-run-N3-prio", Cfg(N=3, resources="tm", sym_prio=True, routes="dcpt", warmup=True, monitors=mons), base_req + ["w_warmup"], 600)
         mk("whole-run-N3-prio-nested", Cfg(N=3, resources="t", sym_prio=True, sym_seq=False, nested=True, monitors=mons), base_req, 600)
-        mk("whole-run-N3-prio-selection", Cfg(N=3, resources="t", sym_prio=True, sym_seq=False, selection=True, debug_leaf=True, monitors=mons), base_req + ["w_debug_in_subgraph"], 600)
+        mk("whole-run-N3-prio-selection", Cfg(N=3, resources="t", sym_prio=True, sym_seq=False, selection=True, debug_leaf=True, failed_before=True, monitors=mons), base_req + ["w_debug_in_subgraph", "w_failed_before"], 600)
         mk("setup-run-N3-prio", Cfg(N=3, resources="tm", sym_prio=True, sym_seq=False, selection=True, setup_call=True, monitors=mons), ["w_returned", "w_setup_call", "w_parallel"], 600)
         mk("setup-run-N5-prio-fixed-shapes", Cfg(N=5, resources="t", sym_prio=True, sym_seq=False, setup_call=True, fixed_shapes=SHAPES_N5, monitors=mons), ["w_returned", "w_setup_call", "w_parallel"], 600, 8)
         from harness.graph import GCfg, run_c07
@@ -390,11 +390,11 @@ def history_parts(pid: str, tier: str):
     q = tier == "quick"
     parts = []
     if pid == "C11":
-        b = {"N": 3, "setup placement": "every subset (invalid ones must be rejected)", "operations": "call, setup(), executor(), executor(target=[i]), setup(target=[i]), deepcopy-then-continue"}
+        b = {"N": 3, "setup placement": "every subset (invalid ones must be rejected)", "operations": "call, setup(), executor(), executor(target=[i]), setup(target=[i]), deepcopy-then-continue, config_from_dict naming every node"}
         parts.append(Part("build-validation", P(run_c11, HCfg(N=3, length=0, flavours="s")), dict(b, what="setup placement x root kinds x leading constants: invalid placements rejected at build"), 900, 8, ["w_invalid_rejected"], HIST_FUNCS))
         parts.append(Part("histories-len2", P(run_c11, HCfg(N=3, length=2, flavours="s")), dict(b, length=2), 900, 8, ["w_reuse", "w_deepcopy", "w_setup_root_target"], HIST_FUNCS))
         parts.append(Part("histories-len2-N2-async", P(run_c11, HCfg(N=2, length=2, flavours="a")), dict(b, N=2, length=2, flavour="async"), 900, 8, ["w_reuse"], HIST_FUNCS))
-        parts.append(Part("histories-len3-N2", P(run_c11, HCfg(N=2, length=3, flavours="s")), dict(b, N=2, length=3), 900, 8, ["w_reuse"], HIST_FUNCS))
+        parts.append(Part("histories-len3-N2", P(run_c11, HCfg(N=2, length=3, flavours="s")), dict(b, N=2, length=3), 900, 8, ["w_reuse", "w_config_after_setup"], HIST_FUNCS))
         from harness.history import run_c18
 
         parts.append(Part("cache-restarts-N2", P(run_c18, HCfg(N=2, length=3, flavours="s")), {"N": 2, "what": "executions restarted from a cache (also one written by another instance) do not replace the value a setup node produced the first time"}, 900, 8, ["w_foreign_cache"], HIST_FUNCS))
